@@ -11,18 +11,18 @@ Open Scope list_scope.
 (* ---------------------------------------------------------------- items and what they look like between the stages *)
 Definition item_tags (it : item16) : option (string * string) :=
   match it with Text _ => None | Raw _ => None | Block k _ _ _ => Some (stage_tags k) | SigBlock _ _ _ => Some sig_tags
-              | TransBlock _ _ _ => Some pst_tags | InitLine _ => None end.
+              | TransBlock _ _ _ => Some pst_tags | InitLine _ => None | UserLine _ => None | TableLine _ _ => None end.
 Definition item_lines (it : item16) : list string :=
   match it with Text _ => [] | Raw _ => [] | Block _ _ _ b => map render_line b | SigBlock _ _ b => map render_line b
-              | TransBlock _ _ b => flat_map render_titem b | InitLine _ => [] end.
+              | TransBlock _ _ b => flat_map render_titem b | InitLine _ => [] | UserLine _ => [] | TableLine _ _ => [] end.
 Definition item_bl (it : item16) : string :=
   match it with Text _ => EmptyString | Raw _ => EmptyString | Block k ib _ _ => (ib ++ begin_line (block_word k))%string
               | SigBlock ib _ _ => (ib ++ begin_line "PER_ACTION_SIGNATURE")%string
-              | TransBlock ib _ _ => (ib ++ begin_line "PER_STATETRANSITION")%string | InitLine _ => EmptyString end.
+              | TransBlock ib _ _ => (ib ++ begin_line "PER_STATETRANSITION")%string | InitLine _ => EmptyString | UserLine _ => EmptyString | TableLine _ _ => EmptyString end.
 Definition item_el (it : item16) : string :=
   match it with Text _ => EmptyString | Raw _ => EmptyString | Block k _ ie _ => (ie ++ end_line (block_word k))%string
               | SigBlock _ ie _ => (ie ++ end_line "PER_ACTION_SIGNATURE")%string
-              | TransBlock _ ie _ => (ie ++ end_line "PER_STATETRANSITION")%string | InitLine _ => EmptyString end.
+              | TransBlock _ ie _ => (ie ++ end_line "PER_STATETRANSITION")%string | InitLine _ => EmptyString | UserLine _ => EmptyString | TableLine _ _ => EmptyString end.
 Definition item_inner (m : smodel) (it : item16) : list string -> option string -> option (list string) :=
   match it with
   | Text _ => fun _ _ => None
@@ -31,6 +31,8 @@ Definition item_inner (m : smodel) (it : item16) : list string -> option string 
   | SigBlock _ _ _ => inner_actionsigs (sm_actionsigs m)
   | TransBlock _ _ _ => inner_tps (sm_tps m)
   | InitLine _ => fun _ _ => None
+  | UserLine _ => fun _ _ => None
+  | TableLine _ _ => fun _ _ => None
   end.
 
 Definition inb (y : string) (l : list string) : bool := existsb (String.eqb y) l.
@@ -39,24 +41,40 @@ Definition inb (y : string) (l : list string) : bool := existsb (String.eqb y) l
 Definition view (e : elements) (done : list string) (it : item16) : list string :=
   match item_tags it with
   | Some (b, _) => if inb b done then ref_item16 e it else render_item16 it
-  | None => match it with InitLine _ => ref_item16 e it | _ => render_item16 it end
+  | None => match it with
+            | InitLine _ => ref_item16 e it
+            | TableLine _ ee => if inb (ttt_tag ee) done then ref_item16 e it else render_item16 it
+            | _ => render_item16 it
+            end
   end.
 
 Lemma render_block_shape it b e : item_tags it = Some (b, e) ->
   render_item16 it = item_bl it :: item_lines it ++ [item_el it].
 Proof. destruct it; cbn [item_tags]; intros H; try discriminate; reflexivity. Qed.
 
+(* the admission of an item for the element lists, as far as the expander stages need it: a user line's condition (about the
+   user-tag phase) is not needed there *)
+Definition wf_x (e : elements) (it : item16) : bool := match it with UserLine _ => true | _ => item16_wf e it end.
+
+Lemma wf_x_of_wf e it : item16_wf e it = true -> wf_x e it = true.
+Proof. destruct it; try (intros H; exact H). intros _. reflexivity. Qed.
+
+Lemma wf_x_user a e it : wf_x (with_user a e) it = wf_x e it.
+Proof. destruct it as [l|rs|k ib ie body|ib ie body|ib ie body|il|ul|pre ee]; try reflexivity. Qed.
+
 (* the block theorems, per item *)
 Lemma item_expands m it :
-  item16_ok it = true -> item16_wf (elements_of_model m) it = true -> item_tags it <> None ->
+  item16_ok it = true -> wf_x (elements_of_model m) it = true -> item_tags it <> None ->
   item_inner m it (item_lines it) None = Some (ref_item16 (elements_of_model m) it).
 Proof.
-  destruct it as [l|rs|k ib ie body|ib ie body|ib ie body|il]; cbn [item16_ok item16_wf item_tags item_inner item_lines ref_item16]; intros Ho Hw Hn.
+  destruct it as [l|rs|k ib ie body|ib ie body|ib ie body|il|ul|pre ee]; cbn [item16_ok wf_x item16_wf item_tags item_inner item_lines ref_item16]; intros Ho Hw Hn.
   - contradiction.
   - contradiction.
   - apply andb_prop in Ho as [_ Ho]. apply inner_block; assumption.
   - apply andb_prop in Ho as [_ Ho]. cbn [elements_of_model el_sigs]. apply sig_block_is_ref; assumption.
   - apply andb_prop in Ho as [_ Ho]. cbn [elements_of_model el_tps] in *. apply inner_tps_is_ref; assumption.
+  - contradiction.
+  - contradiction.
   - contradiction.
 Qed.
 
@@ -82,10 +100,10 @@ Proof.
   apply copy_tagfree; [exact H1| rewrite Hk; exact K2 | exact Wv].
 Qed.
 
-Lemma expanded_tagfree e it : item16_ok it = true -> item16_wf e it = true -> item_tags it <> None ->
+Lemma expanded_tagfree e it : item16_ok it = true -> wf_x e it = true -> item_tags it <> None ->
   forallb tagfree (ref_item16 e it) = true.
 Proof.
-  destruct it as [l|rs|k ib ie body|ib ie body|ib ie body|il]; cbn [item16_ok item16_wf item_tags ref_item16]; intros Ho Hw Hn; [contradiction|contradiction| | | |contradiction].
+  destruct it as [l|rs|k ib ie body|ib ie body|ib ie body|il|ul|pre ee]; cbn [item16_ok wf_x item16_wf item_tags ref_item16]; intros Ho Hw Hn; [contradiction|contradiction| | | |contradiction|contradiction|contradiction].
   - apply andb_prop in Ho as [_ Ho]. unfold ref_block, block_wf in *. apply (ref_block_tagfree (table_of_kind k) (keys_of k) (keys_same k) body Ho _ 0 Hw).
   - apply andb_prop in Ho as [_ Ho]. unfold ref_block, block_wf in *. apply (ref_block_tagfree sig_table sig_keys sig_keys_same body Ho _ 0 Hw).
   - apply andb_prop in Ho as [_ Ho]. apply ref_trans_tagfree; assumption.
@@ -99,12 +117,12 @@ Proof.
     apply negb_true_iff in Hc. cbn [append count_char]. rewrite Hc. cbn [Nat.add]. apply IH. exact H2.
 Qed.
 
-Definition is_init (it : item16) : bool := match it with InitLine _ => true | _ => false end.
+Definition is_init (it : item16) : bool := match it with InitLine _ => true | UserLine _ => true | TableLine _ _ => true | _ => false end.   (* not plain text *)
 
 Lemma plain_item_line it : item_tags it = None -> is_init it = false -> item16_ok it = true ->
   exists s, render_item16 it = [s] /\ (forall e, ref_item16 e it = [s]) /\ tagfree s = true /\ (count_char LF s <=? 1)%nat = true.
 Proof.
-  destruct it as [l|rs|k ib ie body|ib ie body|ib ie body|il]; cbn [item_tags item16_ok is_init]; intros T I H; try discriminate.
+  destruct it as [l|rs|k ib ie body|ib ie body|ib ie body|il|ul|pre ee]; cbn [item_tags item16_ok is_init]; intros T I H; try discriminate.
   - destruct (text_tagfree l H) as [A B]. exists (l ++ nl_str)%string. repeat split; auto.
   - apply andb_prop in H as [A B]. exists rs. repeat split; auto.
 Qed.
@@ -121,7 +139,7 @@ Qed.
 Lemma item_lines_ok it tags : item16_ok it = true -> item_tags it = Some tags ->
   block_lines_ok tags (item_bl it) (item_el it) = true.
 Proof.
-  destruct it as [l|rs|k ib ie body|ib ie body|ib ie body|il]; cbn [item16_ok item_tags item_bl item_el]; intros H T; inversion T; subst;
+  destruct it as [l|rs|k ib ie body|ib ie body|ib ie body|il|ul|pre ee]; cbn [item16_ok item_tags item_bl item_el]; intros H T; inversion T; subst;
     apply andb_prop in H as [H _]; exact H.
 Qed.
 
@@ -140,7 +158,7 @@ Proof.
   assert (B : forall keys body, forallb (body_line_ok keys) body = true -> forallb inert (map render_line body) = true).
   { intros keys. induction body as [|l body IH]; [reflexivity|]. cbn [forallb map]. intros H. apply andb_prop in H as [H1 H2].
     rewrite (IH H2), andb_true_r. unfold body_line_ok in H1. repeat (apply andb_prop in H1 as [H1 ?K]). unfold inert. rewrite K0, K. reflexivity. }
-  destruct it as [l|rs|k ib ie body|ib ie body|ib ie body|il]; cbn [item16_ok item_lines]; intros H; try reflexivity;
+  destruct it as [l|rs|k ib ie body|ib ie body|ib ie body|il|ul|pre ee]; cbn [item16_ok item_lines]; intros H; try reflexivity;
     apply andb_prop in H as [_ H]; [exact (B _ _ H)|exact (B _ _ H)|exact (trans_lines_inert _ H)].
 Qed.
 
@@ -150,23 +168,44 @@ Proof.
   unfold expand_inert in H. rewrite forallb_forall in H. apply H. exact Hst.
 Qed.
 
+(* the stage is not the item's own pending one *)
+Definition pending_ok (st : stage) (done : list string) (it : item16) : Prop :=
+  match it with
+  | TableLine _ ee => own_single st ee = false \/ inb (ttt_tag ee) done = true
+  | _ => match item_tags it with Some tags => own_stage st tags = false \/ inb (fst tags) done = true | None => True end
+  end.
+
+Lemma table_item_tagfree e pre ee : item16_wf e (TableLine pre ee) = true -> forallb tagfree (ref_item16 e (TableLine pre ee)) = true.
+Proof. cbn [item16_wf ref_item16]. intros H. exact H. Qed.
+
 (* every line of an item, as it looks after the stages in [done], is inert for a stage that is not the item's own pending one *)
 Lemma view_lines_inert e done it st :
-  In st all_stages -> item16_ok it = true -> item16_wf e it = true ->
-  match item_tags it with Some tags => own_stage st tags = false \/ inb (fst tags) done = true | None => True end ->
+  In st all_stages -> item16_ok it = true -> wf_x e it = true -> pending_ok st done it ->
   forallb (fun s => stage_inert s st) (view e done it) = true.
 Proof.
   intros Hst Ho Hw Hown. unfold view. destruct (item_tags it) as [[b e']|] eqn:T.
-  - cbn [fst] in Hown. destruct (inb b done) eqn:D.
+  - assert (Hown' : match item_tags it with Some tags => own_stage st tags = false \/ inb (fst tags) done = true | None => True end)
+      by (destruct it; try exact Hown; cbn [item_tags] in T; discriminate).
+    rewrite T in Hown'.
+    clear Hown. rename Hown' into Hown. cbn [fst] in Hown. destruct (inb b done) eqn:D.
     + apply (forallb_impl tagfree); [intros s Hs; apply tagfree_stage_inert; exact Hs|].
       apply expanded_tagfree; [assumption|assumption|rewrite T; discriminate].
     + destruct Hown as [Hown|Hown]; [|discriminate].
       rewrite (render_block_shape it b e' T). destruct (const_facts _ _ _ st (item_lines_ok it _ Ho T) Hst Hown) as [Cb Ce]. cbn [forallb]. rewrite Cb. cbn [andb]. rewrite forallb_app'.
       rewrite (lines_stage_inert st _ Hst (item_lines_inert it Ho)). cbn [forallb andb]. rewrite Ce. reflexivity.
   - destruct (is_init it) eqn:I.
-    + destruct it; try discriminate. cbn [ref_item16 forallb]. rewrite (tagfree_stage_inert _ st (init_item_tagfree e _ Ho Hw)). reflexivity.
+    + destruct it as [l|rs|k ib ie body|ib ie body|ib ie body|il|ul|pre ee]; try discriminate.
+      * cbn [ref_item16 forallb]. rewrite (tagfree_stage_inert _ st (init_item_tagfree e _ Ho Hw)). reflexivity.
+      * (* a user line: as it stands, inert for every stage *)
+        cbn [render_item16 forallb item16_ok] in *. rewrite andb_true_r. unfold plain_line_ok in Ho. apply andb_prop in Ho as [Ho _]. apply andb_prop in Ho as [_ Ho].
+        unfold common_inert in Ho. apply andb_prop in Ho as [_ Ho]. unfold expand_inert in Ho. rewrite forallb_forall in Ho. exact (Ho st Hst).
+      * unfold pending_ok in Hown. destruct (inb (ttt_tag ee) done) eqn:D.
+        -- apply (forallb_impl tagfree); [intros s Hs; apply tagfree_stage_inert; exact Hs|]. apply table_item_tagfree. exact Hw.
+        -- destruct Hown as [Hown|Hown]; [|discriminate]. cbn [render_item16 forallb]. rewrite andb_true_r.
+           cbn [item16_ok] in Ho. apply andb_prop in Ho as [_ Ho]. rewrite forallb_forall in Ho. specialize (Ho st Hst). rewrite Hown in Ho. exact Ho.
     + destruct (plain_item_line it T I Ho) as (s0 & R & _ & Tf & _).
-      assert (V : match it with InitLine _ => ref_item16 e it | _ => render_item16 it end = render_item16 it) by (destruct it; try discriminate; reflexivity).
+      assert (V : match it with InitLine _ => ref_item16 e it | TableLine _ ee => if inb (ttt_tag ee) done then ref_item16 e it else render_item16 it | _ => render_item16 it end = render_item16 it)
+        by (destruct it; try discriminate; reflexivity).
       rewrite V, R. cbn [forallb]. rewrite (tagfree_stage_inert _ st Tf). reflexivity.
 Qed.
 
@@ -175,39 +214,39 @@ Section Steps.
   Variables (m : smodel) (t : template16).
   Let e := elements_of_model m.
   Hypothesis Hok : forallb item16_ok t = true.
-  Hypothesis Hwf : forallb (item16_wf e) t = true.
+  Hypothesis Hwf : forallb (wf_x e) t = true.
 
-  Lemma In_ok it : In it t -> item16_ok it = true /\ item16_wf e it = true.
+  Lemma In_ok it : In it t -> item16_ok it = true /\ wf_x e it = true.
   Proof. intros H. rewrite forallb_forall in Hok, Hwf. auto. Qed.
 
   Lemma step_id st done :
     In st all_stages -> stage_total m st = true ->
-    (forall it tags, In it t -> item_tags it = Some tags -> own_stage st tags = false \/ inb (fst tags) done = true) ->
+    (forall it, In it t -> pending_ok st done it) ->
     apply_stage m (Some (flat_map (view e done) t)) st = Some (flat_map (view e done) t).
   Proof.
     intros Hst Htot Hown. apply apply_stage_id; [exact Htot|]. intros l Hl. apply in_flat_map in Hl as (it & Hit & Hl).
     destruct (In_ok it Hit) as [Ho Hw].
     assert (F : forallb (fun s => stage_inert s st) (view e done it) = true).
-    { apply view_lines_inert; try assumption. destruct (item_tags it) as [tags|] eqn:T; [|exact I]. apply (Hown it tags Hit T). }
+    { apply view_lines_inert; try assumption. exact (Hown it Hit). }
     rewrite forallb_forall in F. apply F. exact Hl.
   Qed.
 
   (* the own stage of some items: their blocks are replaced by the reference blocks *)
   Lemma step_own b et f inner coll done :
     let st : stage := ("Pair", b, et, inner, coll) in
-    In st all_stages -> inb b done = false ->
+    In st all_stages -> inb b done = false -> (forall ee, String.eqb (ttt_tag ee) b = false) ->
     (forall it tags, In it t -> item_tags it = Some tags -> String.eqb (fst tags) b = true ->
         snd tags = et /\ forall x, f x None = item_inner m it x None) ->
     pair_expand b et f (flat_map (view e done) t) = Some (flat_map (view e (b :: done)) t).
   Proof.
-    intros st Hst Hnd Hown. unfold pair_expand.
+    intros st Hst Hnd Hpair Hown. unfold pair_expand.
     assert (G : forall t', (forall it, In it t' -> In it t) ->
                 pair_go b et f false [] None (flat_map (view e done) t') = Some (flat_map (view e (b :: done)) t')).
     { induction t' as [|it t' IH]; intros Hsub; [reflexivity|].
       assert (Hit : In it t) by (apply Hsub; left; reflexivity).
       assert (IH' := IH (fun x Hx => Hsub x (or_intror Hx))). clear IH.
       destruct (In_ok it Hit) as [Ho Hw]. cbn [flat_map].
-      assert (NotOwn : (match item_tags it with Some tags => own_stage st tags = false \/ inb (fst tags) done = true | None => True end) ->
+      assert (NotOwn : pending_ok st done it ->
                        view e (b :: done) it = view e done it ->
                        pair_go b et f false [] None (view e done it ++ flat_map (view e done) t')
                        = Some (view e (b :: done) it ++ flat_map (view e (b :: done)) t')).
@@ -228,9 +267,17 @@ Section Steps.
                                  (flat_map (view e done) t') eq_refl Hnb C C3 C2 C1 C0) as PB.
           cbn [app] in PB. rewrite PB, Hf.
           rewrite (item_expands m it Ho Hw) by (rewrite T; discriminate). rewrite IH'. reflexivity.
-        + apply NotOwn; [left; cbn [own_stage st fst]; rewrite Eb; reflexivity|].
-          unfold view. rewrite T. unfold inb. cbn [existsb]. rewrite Eb. reflexivity.
-      - apply NotOwn; [exact I|]. unfold view. rewrite T. reflexivity. }
+        + apply NotOwn.
+          * assert (P : match item_tags it with Some tags => own_stage st tags = false \/ inb (fst tags) done = true | None => True end)
+              by (rewrite T; left; cbn [own_stage st fst]; rewrite Eb; reflexivity).
+            destruct it; try exact P; cbn [item_tags] in T; discriminate.
+          * unfold view. rewrite T. unfold inb. cbn [existsb]. rewrite Eb. reflexivity.
+      - apply NotOwn.
+        + destruct it as [l|rs|k ib ie body|ib ie body|ib ie body|il|ul|pre ee]; try (cbn [item_tags] in T; discriminate T); try exact I.
+          left. reflexivity.
+        + unfold view. rewrite T. destruct it as [l|rs|k ib ie body|ib ie body|ib ie body|il|ul|pre ee]; try reflexivity.
+          (* a table line: the begin tag of a pair stage is not its tag *)
+          unfold inb. cbn [existsb]. rewrite (Hpair ee). reflexivity. }
     apply G. auto.
   Qed.
 End Steps.
@@ -238,27 +285,40 @@ End Steps.
 (* ---------------------------------------------------------------- all stages of expand_secondfiltering, in source order *)
 Definition stage_kind (st : stage) : string := let '(kind, _, _, _, _) := st in kind.
 Definition stage_b (st : stage) : string := let '(_, b, _, _, _) := st in b.
+Definition marks (st : stage) : bool := String.eqb (stage_kind st) "Pair" || String.eqb (stage_kind st) "Single".
 
 Definition done_after (done : list string) (st : stage) : list string :=
-  if String.eqb (stage_kind st) "Pair" then stage_b st :: done else done.
+  if marks st then stage_b st :: done else done.
 
 Fixpoint fresh_b (stages : list stage) (done : list string) : bool :=
   match stages with
   | [] => true
-  | st :: r => (negb (String.eqb (stage_kind st) "Pair") || negb (inb (stage_b st) done)) && fresh_b r (done_after done st)
+  | st :: r => (negb (marks st) || negb (inb (stage_b st) done)) && fresh_b r (done_after done st)
   end.
 
+Lemma ttt_tags_differ ee ee' : String.eqb (ttt_tag ee') (ttt_tag ee) = Bool.eqb ee' ee.
+Proof. destruct ee, ee'; reflexivity. Qed.
+
 Lemma stage_cases m st : In st all_stages ->
-  (String.eqb (stage_kind st) "Pair" = false /\ stage_total m st = true)
+  (marks st = false /\ stage_total m st = true)
+  \/ (exists b inner coll, st = ("Single", b, "", inner, coll) /\
+        ((single_of m inner coll = None /\ forall ee, String.eqb (ttt_tag ee) b = false)
+         \/ (exists ee, b = ttt_tag ee /\ single_of m inner coll = Some (sml_print (sm_states m) (sm_rows m) ee)))
+        /\ forall it tags, item_tags it = Some tags -> String.eqb (fst tags) b = false)
   \/ (exists b et inner coll f, st = ("Pair", b, et, inner, coll) /\ inner_of m inner coll = Some f
+      /\ (forall ee, String.eqb (ttt_tag ee) b = false)
       /\ forall it tags, item_tags it = Some tags -> String.eqb (fst tags) b = true ->
            snd tags = et /\ forall x, f x None = item_inner m it x None).
 Proof.
   unfold all_stages, second_stages, second_stages_iface. cbn [app In]. intros H.
   repeat (destruct H as [H|H]; [subst st;
     first [ left; split; reflexivity
-          | right; do 5 eexists; split; [reflexivity|]; split; [reflexivity|];
-            intros it tags T E; destruct it as [l|rs|k ib ie body|ib ie body|ib ie body|il]; cbn [item_tags] in T; [discriminate|discriminate| | | |discriminate];
+          | right; left; do 3 eexists; split; [reflexivity|]; split;
+            [first [ left; split; [reflexivity|intros []; reflexivity] | right; exists true; split; reflexivity | right; exists false; split; reflexivity ]
+            |intros it tags T; destruct it as [l|rs|k ib ie body|ib ie body|ib ie body|il|ul|pre ee]; cbn [item_tags] in T; try discriminate;
+             inversion T; subst tags; clear T; try destruct k; reflexivity]
+          | right; right; do 5 eexists; split; [reflexivity|]; split; [reflexivity|]; split; [intros []; reflexivity|];
+            intros it tags T E; destruct it as [l|rs|k ib ie body|ib ie body|ib ie body|il|ul|pre ee]; cbn [item_tags] in T; [discriminate|discriminate| | | |discriminate|discriminate|discriminate];
             inversion T; subst tags; clear T; [destruct k| |]; cbn [fst snd stage_tags sig_tags pst_tags] in *;
             first [ split; [reflexivity|intros x; reflexivity] | vm_compute in E; discriminate E ] ] |]).
   contradiction.
@@ -269,11 +329,80 @@ Lemma apply_stage_pair m ls b et inner coll :
   = match inner_of m inner coll with Some f => pair_expand b et f ls | None => None end.
 Proof. reflexivity. Qed.
 
+Lemma apply_stage_single m ls b inner coll :
+  apply_stage m (Some ls) ("Single", b, "", inner, coll)
+  = match single_of m inner coll with
+    | Some f => Some (single_expand b f ls)
+    | None => if existsb (fun l => hasSpecificTag l b) ls then None else Some ls
+    end.
+Proof. reflexivity. Qed.
+
+Lemma flat_map_flat_map {A B C} (g : B -> list C) (f : A -> list B) l : flat_map g (flat_map f l) = flat_map (fun x => flat_map g (f x)) l.
+Proof. induction l as [|x l IH]; [reflexivity|]. cbn [flat_map]. rewrite flat_map_app, IH. reflexivity. Qed.
+
+Lemma flat_map_ext_in' {A B} (f g : A -> list B) l : (forall x, In x l -> f x = g x) -> flat_map f l = flat_map g l.
+Proof. intros H. induction l as [|x l IH]; [reflexivity|]. cbn [flat_map]. rewrite (H x (or_introl eq_refl)), IH; [reflexivity|]. intros y Hy. apply H. right. exact Hy. Qed.
+
+Section Single.
+  Variables (m : smodel) (t : template16).
+  Let e := elements_of_model m.
+  Hypothesis Hok : forallb item16_ok t = true.
+  Hypothesis Hwf : forallb (wf_x e) t = true.
+
+  (* a single-tag stage: the table lines that carry its tag are replaced by the printed table, everything else stays *)
+  Lemma step_single b inner coll done :
+    let st : stage := ("Single", b, "", inner, coll) in
+    In st all_stages -> inb b done = false ->
+    ((single_of m inner coll = None /\ forall ee, String.eqb (ttt_tag ee) b = false)
+     \/ (exists ee, b = ttt_tag ee /\ single_of m inner coll = Some (sml_print (sm_states m) (sm_rows m) ee))) ->
+    (forall it tags, item_tags it = Some tags -> String.eqb (fst tags) b = false) ->
+    apply_stage m (Some (flat_map (view e done) t)) st = Some (flat_map (view e (b :: done)) t).
+  Proof.
+    intros st Hst Hnd Hcase Hpair. unfold st. rewrite apply_stage_single.
+    (* items whose view does not change and whose lines the stage leaves alone *)
+    assert (Other : forall it, In it t -> (forall pre ee, it = TableLine pre ee -> String.eqb (ttt_tag ee) b = false) ->
+              view e (b :: done) it = view e done it /\ forallb (fun s => negb (hasSpecificTag s b)) (view e done it) = true).
+    { intros it Hit Hnt. destruct (In_ok m t Hok Hwf it Hit) as [Ho Hw]. split.
+      - unfold view. destruct (item_tags it) as [[b' et']|] eqn:T.
+        + unfold inb. cbn [existsb]. pose proof (Hpair it _ T) as P. cbn [fst] in P. rewrite P. reflexivity.
+        + destruct it as [l|rs|k ib ie body|ib ie body|ib ie body|il|ul|pre ee]; try reflexivity.
+          unfold inb. cbn [existsb]. rewrite (Hnt pre ee eq_refl). reflexivity.
+      - apply (view_lines_inert e done it st Hst Ho Hw).
+        destruct it as [l|rs|k ib ie body|ib ie body|ib ie body|il|ul|pre ee]; cbn [pending_ok item_tags]; try exact I; try (left; reflexivity).
+        left. unfold own_single, st. cbn [String.eqb andb]. rewrite String.eqb_sym. rewrite (Hnt pre ee eq_refl). reflexivity. }
+    destruct Hcase as [[Hn Hno]|(ee & -> & Hs)].
+    - rewrite Hn.
+      assert (V : flat_map (view e (b :: done)) t = flat_map (view e done) t).
+      { apply flat_map_ext_in'. intros it Hit. apply (Other it Hit). intros pre ee _. apply Hno. }
+      rewrite V.
+      assert (E : existsb (fun l => hasSpecificTag l b) (flat_map (view e done) t) = false).
+      { apply not_true_iff_false. intros E. apply existsb_exists in E as (l & Hl & E). apply in_flat_map in Hl as (it & Hit & Hl).
+        destruct (Other it Hit (fun pre ee _ => Hno ee)) as [_ F]. rewrite forallb_forall in F. specialize (F l Hl). rewrite E in F. discriminate. }
+      rewrite E. reflexivity.
+    - rewrite Hs. f_equal. unfold single_expand. rewrite flat_map_flat_map. apply flat_map_ext_in'. intros it Hit.
+      destruct (In_ok m t Hok Hwf it Hit) as [Ho Hw].
+      assert (Own : forall pre ee', it = TableLine pre ee' -> Bool.eqb ee' ee = true ->
+                flat_map (fun l => if hasSpecificTag l (ttt_tag ee) then sml_print (sm_states m) (sm_rows m) ee (getWhitespace l) else [l]) (view e done it)
+                = view e (ttt_tag ee :: done) it).
+      { intros pre ee' -> Eb. apply Bool.eqb_prop in Eb. subst ee'. unfold view. cbn [item_tags]. rewrite Hnd. unfold inb at 1. cbn [existsb]. rewrite String.eqb_refl. cbn [orb].
+        cbn [render_item16 flat_map item16_ok] in *. do 3 (apply andb_prop in Ho as [Ho ?K]). apply String.eqb_eq in K0. rewrite K1, K0, app_nil_r. reflexivity. }
+      assert (Gen : forall it', In it' t -> (forall pre ee0, it' = TableLine pre ee0 -> String.eqb (ttt_tag ee0) (ttt_tag ee) = false) ->
+                flat_map (fun l => if hasSpecificTag l (ttt_tag ee) then sml_print (sm_states m) (sm_rows m) ee (getWhitespace l) else [l]) (view e done it')
+                = view e (ttt_tag ee :: done) it').
+      { intros it' Hit' Hnt. destruct (Other it' Hit' Hnt) as [V F]. rewrite V. clear V.
+        induction (view e done it') as [|x xs IHx]; [reflexivity|]. cbn [forallb flat_map] in *. apply andb_prop in F as [F1 F2].
+        apply negb_true_iff in F1. rewrite F1, (IHx F2). reflexivity. }
+      destruct it as [l|rs|k ib ie body|ib ie body|ib ie body|il|ul|pre ee']; try (apply Gen; [exact Hit|intros ? ? E; discriminate E]).
+      destruct (Bool.eqb ee' ee) eqn:Eb; [exact (Own pre ee' eq_refl Eb)|].
+      apply Gen; [exact Hit|]. intros ? ? E. inversion E; subst. rewrite ttt_tags_differ. exact Eb.
+  Qed.
+End Single.
+
 Section Compose.
   Variables (m : smodel) (t : template16).
   Notation e := (elements_of_model m).
   Hypothesis Hok : forallb item16_ok t = true.
-  Hypothesis Hwf : forallb (item16_wf e) t = true.
+  Hypothesis Hwf : forallb (wf_x e) t = true.
 
   Lemma fold_stages : forall stages done,
     (forall st, In st stages -> In st all_stages) -> fresh_b stages done = true ->
@@ -284,15 +413,18 @@ Section Compose.
     cbn [fresh_b] in Hf. apply andb_prop in Hf as [Hf1 Hf2]. cbn [fold_left].
     assert (Hst : In st all_stages) by (apply Hin; left; reflexivity).
     assert (Hin' : forall s, In s stages -> In s all_stages) by (intros s Hs; apply Hin; right; exact Hs).
-    destruct (stage_cases m st Hst) as [[Hk Ht]|(b & et & inner & coll & f & Est & Ef & Hown)].
+    destruct (stage_cases m st Hst) as [[Hk Ht]|[(b & inner & coll & Est & Hcase & Hpair)|(b & et & inner & coll & f & Est & Ef & Hnt & Hown)]].
     - rewrite (step_id m t Hok Hwf st done Hst Ht).
       + unfold done_after at 2. rewrite Hk. apply IH; [exact Hin'|]. unfold done_after in Hf2. rewrite Hk in Hf2. exact Hf2.
-      + intros it tags _ _. left. destruct st as [[[[kind b0] e0] i0] c0]. cbn [stage_kind] in Hk. cbn [own_stage]. rewrite Hk. reflexivity.
-    - subst st. cbn [stage_kind stage_b] in Hf1. rewrite String.eqb_refl in Hf1. cbn [negb orb] in Hf1. apply negb_true_iff in Hf1.
+      + intros it _. destruct st as [[[[kind b0] e0] i0] c0]. unfold marks in Hk. cbn [stage_kind] in Hk. apply orb_false_elim in Hk as [Hk1 Hk2].
+        destruct it as [l|rs|k ib ie body|ib ie body|ib ie body|il|ul|pre ee]; cbn [pending_ok item_tags]; try exact I; left; cbn [own_stage own_single]; rewrite ?Hk1, ?Hk2; reflexivity.
+    - subst st. unfold marks in Hf1. cbn [stage_kind stage_b String.eqb] in Hf1. cbn in Hf1. apply negb_true_iff in Hf1.
+      rewrite (step_single m t Hok Hwf b inner coll done Hst Hf1 Hcase (fun it tags T => Hpair it tags T)).
+      change (done_after done ("Single", b, "", inner, coll)) with (b :: done). apply IH; [exact Hin'|]. exact Hf2.
+    - subst st. unfold marks in Hf1. cbn [stage_kind stage_b] in Hf1. rewrite String.eqb_refl in Hf1. cbn [negb orb] in Hf1. apply negb_true_iff in Hf1.
       rewrite apply_stage_pair, Ef.
-      rewrite (step_own m t Hok Hwf b et f inner coll done Hst Hf1).
-      + unfold done_after at 2. cbn [stage_kind stage_b]. rewrite String.eqb_refl. apply IH; [exact Hin'|].
-        unfold done_after in Hf2. cbn [stage_kind stage_b] in Hf2. rewrite String.eqb_refl in Hf2. exact Hf2.
+      rewrite (step_own m t Hok Hwf b et f inner coll done Hst Hf1 Hnt).
+      + change (done_after done ("Pair", b, et, inner, coll)) with (b :: done). apply IH; [exact Hin'|]. exact Hf2.
       + intros it tags _ T E. exact (Hown it tags T E).
   Qed.
 
@@ -303,15 +435,16 @@ Section Compose.
 
   Lemma all_done it tags : item_tags it = Some tags -> inb (fst tags) done_final = true.
   Proof.
-    destruct it as [l|rs|k ib ie body|ib ie body|ib ie body|il]; cbn [item_tags]; intros T; inversion T; subst; [destruct k| |]; vm_compute; reflexivity.
+    destruct it as [l|rs|k ib ie body|ib ie body|ib ie body|il|ul|pre ee]; cbn [item_tags]; intros T; inversion T; subst; [destruct k| |]; vm_compute; reflexivity.
   Qed.
 
-  Lemma view_final : flat_map (view e done_final) t = flat_map (ref_item16 e) t.
+  Lemma view_final : flat_map (view e done_final) t = flat_map (mid_item16 e) t.
   Proof.
     clear Hok Hwf. induction t as [|it t' IH]; [reflexivity|]. cbn [flat_map]. rewrite IH. f_equal.
     unfold view. destruct (item_tags it) as [[b et]|] eqn:T.
-    - pose proof (all_done it (b, et) T) as D. cbn [fst] in D. rewrite D. reflexivity.
-    - destruct it; cbn [item_tags] in T; try discriminate; reflexivity.
+    - pose proof (all_done it (b, et) T) as D. cbn [fst] in D. rewrite D. destruct it; cbn [item_tags] in T; try discriminate; reflexivity.
+    - destruct it as [l|rs|k ib ie body|ib ie body|ib ie body|il|ul|pre ee]; cbn [item_tags] in T; try discriminate; try reflexivity.
+      assert (D : inb (ttt_tag ee) done_final = true) by (destruct ee; vm_compute; reflexivity). rewrite D. reflexivity.
   Qed.
 
   (* filterInitialState is the first stage: it rewrites exactly the lines that mention the initial state *)
@@ -334,10 +467,10 @@ Section Compose.
     unfold render16. revert Hok Hwf. induction t as [|it t' IH]; intros Ho Hw; [reflexivity|].
     cbn [forallb] in Ho, Hw. apply andb_prop in Ho as [Hi Ho]. apply andb_prop in Hw as [Wi Hw].
     cbn [flat_map]. unfold filterInitialState in *. rewrite map_app, <- (IH Ho Hw). f_equal.
-    destruct (is_init it) eqn:I.
-    - destruct it as [l|rs|k ib ie body|ib ie body|ib ie body|il]; try discriminate.
+    destruct (match it with InitLine _ => true | _ => false end) eqn:I.
+    - destruct it as [l|rs|k ib ie body|ib ie body|ib ie body|il|ul|pre ee]; try discriminate.
       unfold view. cbn [item_tags ref_item16 render_item16 map elements_of_model el_first]. f_equal.
-      rewrite init_fold_chain. symmetry. cbn [item16_ok item16_wf elements_of_model el_first] in Hi, Wi.
+      rewrite init_fold_chain. symmetry. cbn [item16_ok wf_x item16_wf elements_of_model el_first] in Hi, Wi.
       apply andb_prop in Hi as [Hi _]. apply andb_prop in Hi as [H1 _].
       apply chain_render; [|exact H1].
       unfold init_table in *. cbn [forallb snd] in Wi. apply andb_prop in Wi as [W1 W2]. apply andb_prop in W2 as [W2 _].
@@ -347,8 +480,8 @@ Section Compose.
       pose proof (view_lines_inert e [] it init_stage init_in Hi Wi) as F.
       rewrite V in *. fold (filterInitialState m (render_item16 it)). symmetry. apply filterInitialState_id.
       intros l Hl.
-      assert (C : match item_tags it with Some tags => own_stage init_stage tags = false \/ inb (fst tags) [] = true | None => True end)
-        by (destruct (item_tags it); [left; reflexivity|constructor]).
+      assert (C : pending_ok init_stage [] it)
+        by (destruct it as [l0|rs|k ib ie body|ib ie body|ib ie body|il|ul|pre ee]; cbn [pending_ok item_tags]; try exact Logic.I; left; reflexivity).
       specialize (F C). rewrite forallb_forall in F. exact (F l Hl).
   Qed.
 
@@ -360,7 +493,7 @@ Section Compose.
 
   (* expand_secondfiltering on the rendered template: the lines that mention the initial state are rewritten, every block is
      replaced by its reference block *)
-  Theorem second_filter16 : second_filter m (render16 t) = Some (flat_map (ref_item16 e) t).
+  Theorem second_filter16 : second_filter m (render16 t) = Some (flat_map (mid_item16 e) t).
   Proof.
     unfold second_filter. fold all_stages. rewrite stages_split. cbn [fold_left].
     change (apply_stage m (Some (render16 t)) init_stage) with (Some (filterInitialState m (render16 t))).
@@ -379,21 +512,53 @@ Proof.
   cbn [ut_scan]. rewrite (ut_step_tagfree d dflts s H1), (IH H2). reflexivity.
 Qed.
 
-Lemma do_for_tagfree ls : forallb tagfree ls = true -> do_for_lines ls = Some ls.
+Lemma do_for_plain ls : forallb for_plain ls = true -> do_for_lines ls = Some ls.
 Proof.
-  intros H. unfold do_for_lines. destruct for_stage as [[b e0] i]. apply pair_go_id. intros l Hl.
-  rewrite forallb_forall in H. specialize (H l Hl). split; apply tagfree_specific; exact H.
+  intros H. unfold do_for_lines. change for_stage with (TAG_FOR_BEGIN, TAG_FOR_END, snd for_stage). cbn iota. apply pair_go_id. intros l Hl.
+  rewrite forallb_forall in H. specialize (H l Hl). unfold for_plain in H. apply andb_prop in H as [H1 H2]. apply negb_true_iff in H1, H2. split; assumption.
+Qed.
+
+Lemma tagfree_for_plain s : tagfree s = true -> for_plain s = true.
+Proof. intros H. unfold for_plain. rewrite !(tagfree_specific s _ H). reflexivity. Qed.
+
+Lemma do_for_tagfree ls : forallb tagfree ls = true -> do_for_lines ls = Some ls.
+Proof. intros H. apply do_for_plain. revert H. apply forallb_impl. exact tagfree_for_plain. Qed.
+
+
+Lemma item_no_user a e it : (match it with UserLine _ => false | _ => true end) = true ->
+  ref_item16 (with_user a e) it = ref_item16 e it /\ item16_wf (with_user a e) it = item16_wf e it.
+Proof. destruct it; try discriminate; intros _; split; reflexivity. Qed.
+
+Lemma lines_no_user a e t : no_user_lines t = true -> flat_map (ref_item16 (with_user a e)) t = flat_map (ref_item16 e) t.
+Proof.
+  induction t as [|it t IH]; [reflexivity|]. cbn [no_user_lines forallb flat_map]. intros H. apply andb_prop in H as [H1 H2].
+  fold (no_user_lines t) in H2. rewrite (IH H2), (proj1 (item_no_user a e it H1)). reflexivity.
+Qed.
+
+Lemma ref16_no_user a e t : no_user_lines t = true -> ref16 (with_user a e) t = ref16 e t.
+Proof. intros H. unfold ref16. rewrite (lines_no_user a e t H). reflexivity. Qed.
+
+Lemma wf_no_user a e t : no_user_lines t = true -> wf_elements16 t (with_user a e) = wf_elements16 t e.
+Proof.
+  unfold wf_elements16. induction t as [|it t IH]; [reflexivity|]. cbn [no_user_lines forallb]. intros H. apply andb_prop in H as [H1 H2].
+  fold (no_user_lines t) in H2. rewrite (IH H2), (proj2 (item_no_user a e it H1)). reflexivity.
 Qed.
 
 Section Whole.
-  Variables (m : smodel) (dict : list (string * string)) (t : template16).
-  Notation e := (elements_of_model m).
+  Variables (m : smodel) (dict : list (string * string)) (t : template16) (a : usertags).
+  Notation e0 := (elements_of_model m).
+  Notation e := (with_user a e0).
   Hypothesis Hd : dict_ok dict = true.
   Hypothesis Hg : in_grammar16 t = true.
   Hypothesis Hw : wf_elements16 t e = true.
 
   Lemma grammar_items : forallb item16_ok t = true.
   Proof. unfold in_grammar16 in Hg. apply andb_prop in Hg. tauto. Qed.
+
+  Lemma wf_items_x : forallb (wf_x e0) t = true.
+  Proof.
+    unfold wf_elements16 in Hw. revert Hw. apply forallb_impl. intros it H. rewrite <- (wf_x_user a). apply wf_x_of_wf. exact H.
+  Qed.
 
   Lemma render16_load_inert : forallb load_inert (render16 t) = true.
   Proof.
@@ -404,54 +569,90 @@ Section Whole.
       cbn [forallb]. rewrite Lb. cbn [andb]. rewrite forallb_app'. cbn [forallb]. rewrite Le, !andb_true_r.
       generalize (item_lines_inert it Hi). apply forallb_impl. intros s0 K. unfold inert in K. apply andb_prop in K. tauto.
     - destruct (is_init it) eqn:I.
-      + destruct it; try discriminate. cbn [render_item16 forallb item16_ok] in *. apply andb_prop in Hi as [_ Hi]. rewrite Hi. reflexivity.
+      + destruct it as [l|rs|k ib ie body|ib ie body|ib ie body|il|ul|pre ee]; try discriminate; cbn [render_item16 forallb item16_ok] in *.
+        * apply andb_prop in Hi as [_ Hi]. rewrite Hi. reflexivity.
+        * unfold plain_line_ok in Hi. apply andb_prop in Hi as [Hi _]. apply andb_prop in Hi as [_ Hi]. unfold common_inert in Hi.
+          apply andb_prop in Hi as [Hi _]. rewrite Hi. reflexivity.
+        * do 3 (apply andb_prop in Hi as [Hi _]). rewrite Hi. reflexivity.
       + destruct (plain_item_line it T I Hi) as (s0 & R & _ & Tf & Tc). rewrite R. cbn [forallb]. rewrite (tagfree_load_inert _ Tf Tc). reflexivity.
   Qed.
 
-  Lemma ref_lines_tagfree : forallb tagfree (flat_map (ref_item16 e) t) = true.
+  (* per item: after the expander stages its lines are tag-free, or it is a user line as it stands *)
+  Lemma item_mid it : item16_ok it = true -> item16_wf e it = true ->
+    (forallb tagfree (mid_item16 e0 it) = true /\ ref_item16 e it = mid_item16 e0 it)
+    \/ exists l, it = UserLine l /\ plain_line_ok l = true /\ for_plain (ref_line a l) = true.
+  Proof.
+    intros Hi Wi. destruct (item_tags it) as [tags|] eqn:T.
+    - left. assert (R : ref_item16 e it = mid_item16 e0 it) by (destruct it; cbn [item_tags] in T; try discriminate; reflexivity). split; [|exact R].
+      rewrite <- R. apply expanded_tagfree; [exact Hi|apply wf_x_of_wf; exact Wi|rewrite T; discriminate].
+    - destruct (is_init it) eqn:I.
+      + destruct it as [l|rs|k ib ie body|ib ie body|ib ie body|il|ul|pre ee]; try discriminate.
+        * left. split; [|reflexivity]. cbn [mid_item16 ref_item16 forallb]. rewrite (init_item_tagfree e0 _ Hi Wi). reflexivity.
+        * right. exists ul. cbn [item16_ok item16_wf el_user with_user] in *. auto.
+        * left. split; [|reflexivity]. exact (table_item_tagfree e0 pre ee Wi).
+      + left. destruct (plain_item_line it T I Hi) as (s0 & _ & R & Tf & _). split.
+        * assert (M : mid_item16 e0 it = ref_item16 e0 it) by (destruct it; try discriminate; reflexivity). rewrite M, R. cbn [forallb]. rewrite Tf. reflexivity.
+        * rewrite (R e). destruct it; try discriminate; cbn [mid_item16]; rewrite (R e0); reflexivity.
+  Qed.
+
+  (* the user-tag phase: user lines get their values / defaults, everything else is left alone *)
+  Lemma usertags_phase dflts : ut_scan a dflts ut_init (flat_map (mid_item16 e0) t) = flat_map (ref_item16 e) t.
   Proof.
     pose proof grammar_items as Ho. unfold wf_elements16 in Hw. clear Hg. revert Ho Hw. induction t as [|it t' IH]; intros Ho Hw'; [reflexivity|].
     cbn [forallb] in Ho, Hw'. apply andb_prop in Ho as [Hi Ho]. apply andb_prop in Hw' as [Wi Hw'].
-    cbn [flat_map]. rewrite forallb_app', (IH Ho Hw'), andb_true_r.
-    destruct (item_tags it) as [tags|] eqn:T.
-    - apply expanded_tagfree; [assumption|assumption|rewrite T; discriminate].
-    - destruct (is_init it) eqn:I.
-      + destruct it; try discriminate. cbn [ref_item16 forallb]. rewrite (init_item_tagfree e _ Hi Wi). reflexivity.
-      + destruct (plain_item_line it T I Hi) as (s0 & _ & R & Tf & _). rewrite R. cbn [forallb]. rewrite Tf. reflexivity.
+    cbn [flat_map]. destruct (item_mid it Hi Wi) as [[Tf R]|(l & -> & Hp & _)].
+    - rewrite R. clear R. induction (mid_item16 e0 it) as [|s ls IHs]; [exact (IH Ho Hw')|].
+      cbn [forallb app] in *. apply andb_prop in Tf as [T1 T2]. cbn [ut_scan]. rewrite (ut_step_tagfree a dflts s T1). cbn [app]. f_equal. exact (IHs T2).
+    - cbn [mid_item16 ref_item16 app el_user with_user]. cbn [ut_scan].
+      rewrite (step_plain_outside a dflts ut_init l Hp eq_refl). cbn [app can_process_else ut_init]. f_equal. exact (IH Ho Hw').
   Qed.
 
-  (* the generated file of a template of the grammar is the reference expansion *)
-  Theorem engine16_is_ref : engine16 m dict t = Some (ref16 e t).
+  Lemma ref_lines_for_plain : forallb for_plain (flat_map (ref_item16 e) t) = true.
   Proof.
-    pose proof grammar_items as Ho. pose proof Hg as G. unfold in_grammar16 in G. apply andb_prop in G as [_ Hfmn].
-    unfold engine16, generate_file, generate. rewrite phases_eq. cbn [fold_left].
-    rewrite !phase_skip by (cbn [In]; tauto).
-    rewrite phase_load. cbn [map_files]. rewrite (load_file_id dict _ Hd render16_load_inert Hfmn).
-    rewrite phase_expand. cbn [map_files]. rewrite (second_filter16 m t Ho Hw).
-    rewrite phase_usertags. unfold do_user_tags. cbn [map fst snd]. unfold do_user_tags_file.
-    rewrite (ut_scan_tagfree _ _ _ ref_lines_tagfree).
-    rewrite phase_for. cbn [map_files]. rewrite (do_for_tagfree _ ref_lines_tagfree).
-    rewrite !phase_skip by (cbn [In]; tauto). rewrite phase_write. cbn [map_files].
-    rewrite !phase_skip by (cbn [In]; tauto). reflexivity.
+    pose proof grammar_items as Ho. unfold wf_elements16 in Hw. clear Hg. revert Ho Hw. induction t as [|it t' IH]; intros Ho Hw'; [reflexivity|].
+    cbn [forallb] in Ho, Hw'. apply andb_prop in Ho as [Hi Ho]. apply andb_prop in Hw' as [Wi Hw'].
+    cbn [flat_map]. rewrite forallb_app', (IH Ho Hw'), andb_true_r. destruct (item_mid it Hi Wi) as [[Tf R]|(l & -> & _ & Hf)].
+    - rewrite R. revert Tf. apply forallb_impl. exact tagfree_for_plain.
+    - cbn [ref_item16 forallb el_user with_user]. rewrite Hf. reflexivity.
   Qed.
 
-  (* the same for any assignment of user tags and any template lines that the first filtering turns into render16 t
-     (a shipped template file under a concrete dictionary): nothing is left for the user-tag and FOR phases *)
-  Theorem generate_is_ref (a : usertags) lines :
+  (* without user lines every line of the result is tag-free *)
+  Lemma ref_lines_tagfree : no_user_lines t = true -> forallb tagfree (flat_map (ref_item16 e) t) = true.
+  Proof.
+    pose proof grammar_items as Ho. unfold wf_elements16 in Hw. clear Hg. revert Ho Hw. induction t as [|it t' IH]; intros Ho Hw' Hn; [reflexivity|].
+    cbn [forallb no_user_lines] in Ho, Hw', Hn. apply andb_prop in Ho as [Hi Ho]. apply andb_prop in Hw' as [Wi Hw']. apply andb_prop in Hn as [N1 N2].
+    cbn [flat_map]. rewrite forallb_app', (IH Ho Hw' N2), andb_true_r. destruct (item_mid it Hi Wi) as [[Tf R]|(l & -> & _)]; [rewrite R; exact Tf|discriminate].
+  Qed.
+
+  (* the generated file: for any assignment of user tags and any template lines that the first filtering turns into render16 t *)
+  Theorem generate_is_ref lines :
     load_file dict lines = Some (render16 t) -> generate_file m dict a lines = Some (ref16 e t).
   Proof.
     intros Hl. pose proof grammar_items as Ho.
     unfold generate_file, generate. rewrite phases_eq. cbn [fold_left].
     rewrite !phase_skip by (cbn [In]; tauto).
     rewrite phase_load. cbn [map_files]. rewrite Hl.
-    rewrite phase_expand. cbn [map_files]. rewrite (second_filter16 m t Ho Hw).
+    rewrite phase_expand. cbn [map_files]. rewrite (second_filter16 m t Ho wf_items_x).
     rewrite phase_usertags. unfold do_user_tags. cbn [map fst snd]. unfold do_user_tags_file.
-    rewrite (ut_scan_tagfree _ _ _ ref_lines_tagfree).
-    rewrite phase_for. cbn [map_files]. rewrite (do_for_tagfree _ ref_lines_tagfree).
+    rewrite usertags_phase.
+    rewrite phase_for. cbn [map_files]. rewrite (do_for_plain _ ref_lines_for_plain).
     rewrite !phase_skip by (cbn [In]; tauto). rewrite phase_write. cbn [map_files].
     rewrite !phase_skip by (cbn [In]; tauto). reflexivity.
   Qed.
 End Whole.
+
+(* the template itself as the file (no user tags assigned) *)
+Theorem engine16_is_ref m dict t :
+  dict_ok dict = true -> in_grammar16 t = true -> wf_elements16 t (elements_of_model m) = true ->
+  engine16 m dict t = Some (ref16 (elements_of_model m) t).
+Proof.
+  intros Hd Hg Hw. pose proof Hg as G. unfold in_grammar16 in G. apply andb_prop in G as [_ Hfmn].
+  assert (E : with_user [] (elements_of_model m) = elements_of_model m) by reflexivity.
+  unfold engine16. rewrite <- E. apply generate_is_ref.
+  - exact Hg.
+  - rewrite E. exact Hw.
+  - apply load_file_id; [exact Hd| |exact Hfmn]. apply (render16_load_inert t). exact Hg.
+Qed.
 
 (* the same against the table: the reference the check computes (ref16_rows) *)
 Theorem engine16_is_ref_table tt structs protos msgs m dict t :
